@@ -89,10 +89,12 @@ type runner struct {
 	hist   map[uint64]*poolHist
 	budget int
 	// measured dust after complete drains: max over drains of (dust units) and of dust/nops
-	maxDust      *big.Int
-	maxDustRatio float64
-	dustSamples  []string
-	failedDrains []string
+	maxDust       *big.Int
+	maxDustRatio  float64
+	dustSamples   []string
+	failedDrains  []string
+	spelling      string // sender spelling of the step being committed ("" = canonical)
+	drainSpelling string // spelling used by every second exit order of a drain ("" = canonical)
 }
 
 func (r *runner) ph(p amm.PoolInfo) *poolHist {
@@ -152,7 +154,13 @@ func (r *runner) step(ctx sdk.Context, p amm.PoolInfo, o amm.Op, mustOK bool, h 
 	if pl, found, _ := r.w.K.GetPool(ctx, p.ID); found {
 		h.seePrice(pl.CurrentSqrtPrice)
 	}
-	term, err := r.w.Step(ctx, p, o, mustOK)
+	var term string
+	var err error
+	if r.spelling != "" && spellable(o.Kind) {
+		term, err = r.stepSpelled(ctx, p, o, mustOK, r.spelling)
+	} else {
+		term, err = r.w.Step(ctx, p, o, mustOK)
+	}
 	if pl, found, _ := r.w.K.GetPool(ctx, p.ID); found {
 		h.seePrice(pl.CurrentSqrtPrice)
 	}
@@ -178,8 +186,8 @@ func (r *runner) step(ctx sdk.Context, p amm.PoolInfo, o amm.Op, mustOK bool, h 
 	if nposBefore == 0 && nposAfter > 0 && h.emptied > 0 {
 		h.refills++
 	}
-	r.cf.Add(fmt.Sprintf("{| k_case := %s; k_nops := %d; k_others_same := %s; k_in := %s; k_out := %s; k_sp_min := %s |}",
-		term, h.nops, emit.Bool(before == after), vec(h.flow.in), vec(h.flow.out), h.spMinZ()))
+	r.cf.Add(fmt.Sprintf("{| k_case := %s; k_nops := %d; k_others_same := %s; k_in := %s; k_out := %s; k_sp_min := %s; k_owners_canonical := %s |}",
+		term, h.nops, emit.Bool(before == after), vec(h.flow.in), vec(h.flow.out), h.spMinZ(), emit.Bool(r.ownersCanonical(ctx, p))))
 	info := o.Info()
 	info["pool"] = p.ID
 	info["pool_params"] = fmt.Sprintf("fee=%s ratio=%s offset=%s denoms=%v", p.Fee, p.Ratio, p.Offset, p.Denoms[:2])
@@ -233,7 +241,7 @@ func (r *runner) commit(ctx sdk.Context, p amm.PoolInfo, o amm.Op) error {
 // strangerOps: every way a non-owner could try to move a position's funds.
 func (r *runner) strangerOps(ctx sdk.Context, p amm.PoolInfo, q lptypes.Position, kind int) amm.Op {
 	w := r.w
-	owner := w.C02UserIndex(q.Address)
+	owner := r.ownerIndex(q.Address)
 	stranger := (owner + 1 + w.R.Intn(3)) % 4 // any of the three other accounts (3 never owns anything)
 	liq := amm.C02Raw(q.Liquidity)
 	switch kind % 6 {
@@ -247,7 +255,7 @@ func (r *runner) strangerOps(ctx sdk.Context, p amm.PoolInfo, q lptypes.Position
 		// a list that starts with one of the stranger's own positions (if any) and then names the victim
 		ids := []uint64{}
 		for _, x := range w.C02Positions(ctx, p) {
-			if w.C02UserIndex(x.Address) == stranger {
+			if r.ownerIndex(x.Address) == stranger {
 				ids = append(ids, x.Id)
 				break
 			}
@@ -318,7 +326,7 @@ func (r *runner) drainOrder(ctx sdk.Context, p amm.PoolInfo, poss []lptypes.Posi
 	for _, k := range order {
 		q := poss[k]
 		ids = append(ids, fmt.Sprint(q.Id))
-		owner := r.w.C02UserIndex(q.Address)
+		owner := r.ownerIndex(q.Address)
 		ex := map[string]any{"drain": label}
 		if claimFirst {
 			if err := r.step(c, p, amm.Op{Kind: "claim", Sender: owner, Pids: []uint64{q.Id}, Tag: "drain/claim/" + label}, true, h, ex); err != nil {
@@ -385,7 +393,11 @@ func (r *runner) drainPool(ctx sdk.Context, p amm.PoolInfo, maxAll, maxOrders in
 			break
 		}
 		claimFirst := k == len(orders)-1 && len(orders) > 1
+		if r.drainSpelling != "" && k%2 == 1 {
+			r.spelling = r.drainSpelling // this exit order: every provider spells himself like this
+		}
 		r.drainOrder(ctx, p, poss, o, claimFirst, fmt.Sprintf("%s/order%d", label, k))
+		r.spelling = ""
 		if nontriv {
 			r.st.Nontriv(fmt.Sprintf("drain/%d/%s/%v", p.ID, label, o))
 		}
@@ -425,7 +437,7 @@ func tickOf(p amm.PoolInfo, base, quote *big.Int) int64 {
 
 func (r *runner) decreaseAll(ctx sdk.Context, p amm.PoolInfo, tag string) {
 	for _, q := range r.w.C02Positions(ctx, p) {
-		r.commit(ctx, p, amm.Op{Kind: "decrease", Sender: r.w.C02UserIndex(q.Address), Pid: q.Id, Liq: amm.C02Raw(q.Liquidity), Tag: tag})
+		r.commit(ctx, p, amm.Op{Kind: "decrease", Sender: r.ownerIndex(q.Address), Pid: q.Id, Liq: amm.C02Raw(q.Liquidity), Tag: tag})
 	}
 }
 
@@ -600,7 +612,7 @@ func (r *runner) closeSharedBound(ctx sdk.Context, p amm.PoolInfo) bool {
 		return false
 	}
 	q := cands[r.w.R.Intn(len(cands))]
-	r.commit(ctx, p, amm.Op{Kind: "decrease", Sender: r.w.C02UserIndex(q.Address), Pid: q.Id, Liq: amm.C02Raw(q.Liquidity), Tag: "close-shared-bound"})
+	r.commit(ctx, p, amm.Op{Kind: "decrease", Sender: r.ownerIndex(q.Address), Pid: q.Id, Liq: amm.C02Raw(q.Liquidity), Tag: "close-shared-bound"})
 	r.st.Count("closed-position-sharing-one-bound")
 	r.st.Nontriv(fmt.Sprintf("shared-bound/%d/%d/%d", p.ID, q.LowerTick, q.UpperTick))
 	for d := 0; d < 2; d++ {
@@ -629,7 +641,7 @@ func (r *runner) scenarioSharedBound(ctx sdk.Context, maxOrders int) error {
 	closeTag := func(tag string, lo, up int64) {
 		for _, q := range r.w.C02Positions(ctx, p) {
 			if q.LowerTick == lo && q.UpperTick == up {
-				r.commit(ctx, p, amm.Op{Kind: "decrease", Sender: r.w.C02UserIndex(q.Address), Pid: q.Id, Liq: amm.C02Raw(q.Liquidity), Tag: tag})
+				r.commit(ctx, p, amm.Op{Kind: "decrease", Sender: r.ownerIndex(q.Address), Pid: q.Id, Liq: amm.C02Raw(q.Liquidity), Tag: tag})
 				r.st.Count("closed-position-sharing-one-bound")
 				r.st.Nontriv(fmt.Sprintf("shared-bound/%d/%d/%d", p.ID, lo, up))
 			}
@@ -667,7 +679,9 @@ func (r *runner) scenarioExhaust(ctx sdk.Context, maxOrders int) error {
 func Run(seed int64, n int, outDir string) error {
 	w := amm.NewWorld(seed)
 	defer w.H.Close()
-	if os.Getenv("C02_EXPLORE") != "" {
+	if os.Getenv("C02_EXPLORE") == "owner" {
+		probeOwner(w)
+	} else if os.Getenv("C02_EXPLORE") != "" {
 		explore(w)
 	}
 	r := &runner{w: w, hist: map[uint64]*poolHist{}, budget: n, maxDust: big.NewInt(0)}
@@ -689,6 +703,13 @@ func Run(seed int64, n int, outDir string) error {
 		sharedOrders = 6
 	}
 	if err := r.scenarioSharedBound(ctx, sharedOrders); err != nil {
+		return err
+	}
+	spellOrders := 2
+	if thorough {
+		spellOrders = 6
+	}
+	if err := r.scenarioSpelling(ctx, spellOrders); err != nil {
 		return err
 	}
 	poorOrders := 2
@@ -764,6 +785,15 @@ func Run(seed int64, n int, outDir string) error {
 			r.commit(ctx, p, create(w.R.Intn(3), pool.CurrentTick-a, pool.CurrentTick+b, w.R.LogUniform(30), w.R.LogUniform(30), "create-1-to-1e30"))
 		case w.R.Chance(1, 8) && len(w.C02Positions(ctx, p)) > 0 && r.poorGenerated(ctx, p):
 			// done: a generated create / increase / swap by a sender who holds exactly, or not quite, what it needs
+		case w.R.Chance(1, 8):
+			// a generated message whose sender spells his address in upper case
+			o := w.GenOp(ctx, p)
+			if spellable(o.Kind) {
+				r.commitSpelled(ctx, p, o, "upper")
+				r.rejectsMixedCase(ctx, p, o)
+			} else {
+				r.commit(ctx, p, o)
+			}
 		case w.R.Chance(1, 10) && r.closeSharedBound(ctx, p):
 			// done: closed a position sharing exactly one bound and traded across the shared tick
 		case w.R.Chance(1, 9) && len(w.C02Positions(ctx, p)) > 0 && len(r.sharedOneBound(ctx, p)) == 0:
@@ -801,9 +831,11 @@ func Run(seed int64, n int, outDir string) error {
 	if n >= 600 {
 		maxAll, maxOrders = 4, 24
 	}
+	r.drainSpelling = "upper"
 	for _, p := range gen {
 		r.drainPool(ctx, p, maxAll, maxOrders, "final")
 	}
+	r.drainSpelling = ""
 	for _, p := range w.Pools {
 		h := r.ph(p)
 		if h.refills > 0 {
